@@ -39,6 +39,11 @@ def is_zero(e):
     if e == 0:
         return True
     try:
+        if sp.expand(e) == 0:
+            return True
+    except Exception:
+        pass
+    try:
         if sp.cancel(sp.together(sp.expand(e))) == 0:
             return True
     except Exception:
@@ -337,9 +342,17 @@ def superlinear_cancellation(expr):
     (or higher) in tau?  Differences of coordinates cancel linear terms (harmless); squares of absolute positions that only
     cancel against each other lose all accuracy far from the origin.  Returns the offending sub-expression or None."""
     tau = sp.Function("tau")
-    tsyms = {}
+    memo = {}
 
     def deg(e):
+        if e in memo:
+            return memo[e]
+        memo[e] = _deg(e)
+        return memo[e]
+
+    def _deg(e):
+        if not any(e.has(fn) for fn in (A, B, C, D, Cm, Cp)):
+            return 0
         num, den = sp.fraction(sp.cancel(sp.together(sp.expand(shift_all(e, tau)))))
         ee = sp.expand(num)
         taus = sorted(ee.atoms(sp.core.function.AppliedUndef) | den.atoms(sp.core.function.AppliedUndef), key=str)
@@ -355,6 +368,8 @@ def superlinear_cancellation(expr):
             return 99
 
     def walk(e):
+        if not any(e.has(fn) for fn in (A, B, C, D, Cm, Cp)):
+            return None
         if isinstance(e, sp.Add):
             ds = [deg(a) for a in e.args]
             if max(ds) >= 2 and deg(e) < max(ds):
